@@ -53,6 +53,7 @@ type caseSpec struct {
 	PreOpts buildOpts // esgz-* inputs: how the input blob was built
 	GenCh   int64
 	Inject  string // "", "toc", "landmark"
+	DupTail bool   // the order-sensitive tail (target, hardlink, duplicate of an early entry) was appended
 }
 
 func (c *caseSpec) String() string {
@@ -63,7 +64,53 @@ func (c *caseSpec) String() string {
 	if c.Inject != "" {
 		s += " inject=" + c.Inject
 	}
+	if c.DupTail {
+		s += " duptail"
+	}
 	return s
+}
+
+// appendDupTail appends an order-sensitive tail, 1-3 times: a regular file T, a hardlink to
+// T right after it, then a duplicate of a regular file X that sits early in the archive
+// (X is never a hardlink or a hardlink target, so replacing it is inside the generator's
+// domain). A builder that reorders entries while dropping the first X (instead of keeping
+// every survivor at its own position) puts the link in front of its target.
+func appendDupTail(rng *prng.R, ents []gen.Entry) []gen.Entry {
+	for round, n := 0, rng.Range(1, 3); round < n; round++ {
+		linked := map[string]bool{}
+		for _, e := range ents {
+			if e.Type == tar.TypeLink {
+				linked[gen.Clean(e.Name)] = true
+				linked[gen.Clean(e.Linkname)] = true
+			}
+		}
+		var cands []int
+		for i, e := range ents {
+			if e.Type == tar.TypeReg && !linked[gen.Clean(e.Name)] && i+2 < len(ents) {
+				cands = append(cands, i)
+			}
+		}
+		var x gen.Entry
+		if len(cands) > 0 {
+			x = ents[cands[rng.Intn(len(cands))]]
+		} else {
+			x = gen.Entry{Name: fmt.Sprintf("zzX%d", round), Type: tar.TypeReg, Mode: 0o644, Size: int64(rng.Range(0, 40)), ContentID: 0x5eed0100 + uint64(round)*8, ModTime: 1500000000}
+			pos := rng.Intn(len(ents)/2 + 1)
+			ents = append(ents[:pos:pos], append([]gen.Entry{x}, ents[pos:]...)...)
+		}
+		t := gen.Entry{Name: fmt.Sprintf("zzT%d", round), Type: tar.TypeReg, Mode: 0o755, Size: int64(rng.Range(1, 60)), ContentID: 0x5eed0102 + uint64(round)*8, ModTime: 1500000001}
+		if rng.Bool() {
+			t.Name = "./" + t.Name
+		}
+		l := gen.Entry{Name: fmt.Sprintf("zzL%d", round), Type: tar.TypeLink, Mode: 0o644, Linkname: rng.PickS("", "./", "/") + fmt.Sprintf("zzT%d", round), ModTime: 1500000002}
+		dup := x
+		dup.Name = rng.PickS("", "", "./", "/") + gen.Clean(x.Name)
+		dup.ContentID = 0x5eed0104 + uint64(round)*8
+		dup.Size = int64(rng.Range(0, 70))
+		dup.Mode = 0o600
+		ents = append(ents, t, l, dup)
+	}
+	return ents
 }
 
 // keyClass is the stable scenario part of violation keys.
@@ -151,6 +198,10 @@ func genCase(r *vf.Run, i int) (*caseSpec, []gen.Entry) {
 		o.MaxEntries = rng.Pick(3, 8, 12)
 	}
 	ents := gen.RandomTar(rng.Derive(1), o)
+	if rng.Chance(2, 5) {
+		ents = appendDupTail(rng.Derive(4), ents)
+		c.DupTail = true
+	}
 	if rng.Chance(1, 10) {
 		c.Inject = rng.PickS("toc", "landmark")
 	}
@@ -554,6 +605,11 @@ func runCase(r *vf.Run, idx int) {
 	r.Count("file_digests_checked", st.DigestsChecked)
 	r.Count("duplicates_dropped", st.DroppedDuplicates)
 	r.Count("duplicates_kept", st.KeptDuplicates)
+	r.Count("sequential_unpack_compared", st.UnpackCompared)
+	r.Count("sequential_unpack_hardlinks", st.UnpackHardlinks)
+	if c.DupTail {
+		r.Count("cases_with_dup_after_hardlink_tail_"+c.Mode, 1)
+	}
 	r.Count("blob_bytes", int(st.BlobBytes))
 	r.Distinct("max_chunks_per_file", strconv.Itoa(st.MaxChunksPerFile))
 	r.Distinct("option_classes", c.keyClass()+"/"+c.Input)
